@@ -14,7 +14,10 @@ Import ListNotations.
 From ZI Require Export Lib.Util Model.Ro Model.DeclAlg.
 
 Inductive ttree := TLeaf (x : node) | TSeq (ts : list ttree) | TDecl (ts : list ttree).
-Inductive operand := OArgs (ts : list ttree) | OSpec (c : node).
+(* OSuper x rem : implementedBy(super(B, ob)) / providedBy(super(B, ob)), read back as node x;
+   [rem] = the class specifications of the classes after B in CPython's own type(ob).__mro__
+   (computed by the harness with plain Python classes, not by zope.interface) *)
+Inductive operand := OArgs (ts : list ttree) | OSpec (c : node) | OSuper (x : node) (rem : list node).
 Inductive iop := IAlso (ts : list ttree) | IDirectly (ts : list ttree) | INoLonger (i : node).
 
 Definition obs := option (list node).
@@ -25,6 +28,8 @@ Record case_t := mkCase {
   c_decls : list operand;
   c_iter : list obs;
   c_contains : list (option (list bool));      (* over [map fst c_g] *)
+  c_ctwin : list (option (list bool));         (* [twin(i) in A] over [twin_nodes c_ifs]: twin(i) is a distinct
+                                                  InterfaceClass object with the name and module of i, hence == i *)
   c_flat : list obs;
   c_sub : list (list obs);                     (* row a, column b : list(A - B) *)
   c_add : list (list obs);
@@ -34,8 +39,11 @@ Record case_t := mkCase {
   c_cdecl : list (node * list ttree);          (* classes without base classes: what was passed to implementer / classImplements *)
   c_cls : node;
   c_ops : list iop;
-  c_inst : list (obs * bool * obs)             (* after each op: directlyProvidedBy, raised, providedBy *)
+  c_inst : list (obs * bool * obs);            (* after each op: directlyProvidedBy, raised, providedBy *)
+  c_ptwin : option (list bool)                 (* [twin(i) in providedBy(ob)] after the last op *)
 }.
+
+Definition twin_nodes (ifs : list node) : list node := filter (fun i => negb (Nat.eqb i 0)) ifs.
 
 (* ------------------------------------------------------------------ model side *)
 Section M.
@@ -53,6 +61,7 @@ Section M.
     match o with
     | OArgs ts => mk_decl g ifs (map to_tree ts)
     | OSpec c => bases g c
+    | OSuper x _ => bases g x
     end.
 
   Definition m_inst_step (c : node) (st : option (list node) * list (list node * bool * list node)) (o : iop) :=
@@ -71,11 +80,13 @@ End M.
 Record model_t := mkModel {
   m_iter : list (list node);
   m_contains : list (list bool);
+  m_ctwin : list (list bool);
   m_flat : list (list node);
   m_sub : list (list (list node));
   m_add : list (list (list node));
   m_radd : list (list node);
-  m_insts : list (list node * bool * list node)
+  m_insts : list (list node * bool * list node);
+  m_ptwin : list bool
 }.
 
 Definition model_out (c : case_t) : model_t :=
@@ -85,11 +96,15 @@ Definition model_out (c : case_t) : model_t :=
   mkModel
     (map (iter g ifs) ds)
     (map (fun d => map (contains g ifs d) nodes) ds)
+    (* names are unique in the model: an equal-but-distinct interface answers as the original *)
+    (map (fun d => map (contains g ifs d) (twin_nodes ifs)) ds)
     (map (flattened g ifs) ds)
     (map (fun a => map (fun b => iter g ifs (sub g ifs a b)) ds) ds)
     (map (fun a => map (fun b => iter g ifs (add g ifs a b)) ds) ds)
     (map (fun '(d, (x, _)) => iter g ifs (radd g ifs x d)) (combine ds (c_radd c)))
-    (m_inst g ifs (c_cls c) (c_ops c)).
+    (m_inst g ifs (c_cls c) (c_ops c))
+    (let p := fst (fold_left (m_inst_step g ifs (c_cls c)) (c_ops c) (None, [])) in
+     map (contains g ifs (provided_by (c_cls c) p)) (twin_nodes ifs)).
 
 Definition obs_eqb (o : obs) (l : list node) : bool :=
   match o with Some l' => lnat_eqb l' l | None => false end.
@@ -108,12 +123,14 @@ Definition check_model (c : case_t) : bool :=
   let m := model_out c in
   all2 obs_eqb (c_iter c) (m_iter m)
   && all2 obsb_eqb (c_contains c) (m_contains m)
+  && all2 obsb_eqb (c_ctwin c) (m_ctwin m)
   && all2 obs_eqb (c_flat c) (m_flat m)
   && all2 (all2 obs_eqb) (c_sub c) (m_sub m)
   && all2 (all2 obs_eqb) (c_add c) (m_add m)
   && all2 (fun '(_, o) l => obs_eqb o l) (c_radd c) (m_radd m)
   && all2 (fun '(d, r, p) '(d', r', p') => obs_eqb d d' && Bool.eqb r r' && obs_eqb p p')
-          (c_inst c) (m_insts m).
+          (c_inst c) (m_insts m)
+  && obsb_eqb (c_ptwin c) (m_ptwin m).
 
 (* ------------------------------------------------------------------ spec side (brute force) *)
 Section S.
@@ -162,6 +179,7 @@ Section S.
     match o with
     | OArgs ts => sp_dedupe (flat_map sp_flat ts)
     | OSpec c => sp_dedupe (sp_ifaces c)
+    | OSuper _ rem => sp_dedupe (flat_map sp_ifaces rem)   (* declared then inherited over the MRO remainder *)
     end.
 
   Fixpoint nodupb (l : list node) : bool :=
@@ -237,9 +255,12 @@ Definition check_spec (c : case_t) : bool :=
              (c_cdecl c)
   && all2 obs_eqb (c_iter c) its
   && all2 (fun o it => obsb_eqb o (map (fun x => memb x it) nodes)) (c_contains c) its
+  && all2 (fun o it => obsb_eqb o (map (fun x => memb x it) (twin_nodes ifs))) (c_ctwin c) its
   && all2 (fun o it => is_some_true (sp_flat_ok g ifs it) o) (c_flat c) its
   && all2 (fun row a => all2 (fun o b => obs_eqb o (sp_sub g a b)) row its) (c_sub c) its
   && all2 (fun row a => all2 (fun o b => obs_eqb o (sp_add g a b) || obs_eqb o (sp_add_worded g a b)) row its) (c_add c) its
   && all2 (fun '(x, o) a => is_some_true (fun r => nodupb r && same_set r (x :: a)) o) (c_radd c) its
   && all2 (fun '(d, r, p) '(d', r', p') => obs_eqb d d' && Bool.eqb r r' && obs_eqb p p')
-          (c_inst c) (sp_inst g ifs (c_cls c) (c_ops c)).
+          (c_inst c) (sp_inst g ifs (c_cls c) (c_ops c))
+  && (let lv := fst (fold_left (sp_inst_step g ifs (c_cls c)) (c_ops c) ([], [])) in
+      obsb_eqb (c_ptwin c) (map (fun x => memb x (sp_dp g ifs (lv ++ [c_cls c]))) (twin_nodes ifs))).
